@@ -235,7 +235,12 @@ pub fn gen_query(r: &mut Rng, svcs: &[Svc]) -> Option<String> {
     for _ in 0..nq {
         let s = if svcs.is_empty() { None } else { Some(&svcs[r.below(svcs.len() as u64) as usize]) };
         let case = r.below(4);
-        let (name, ty): (String, u16) = match (r.below(12), s) {
+        // the names a conflict would rename the service to (`name_change`, `hostname_change`)
+        let renamed = |full: &str, suffix: &str| match full.find('.') {
+            Some(i) => format!("{}{}{}", &full[..i], suffix, &full[i..]),
+            None => full.to_string(),
+        };
+        let (name, ty): (String, u16) = match (r.below(14), s) {
             (0, Some(s)) => (s.ty.clone(), 12),
             (1, Some(s)) => (flip_case(&s.ty, 1 + r.below(2)), 12),
             (2, Some(s)) => (s.sub.clone().unwrap_or(format!("_none._sub.{}", s.ty)), 12),
@@ -248,6 +253,8 @@ pub fn gen_query(r: &mut Rng, svcs: &[Svc]) -> Option<String> {
             (9, Some(s)) => (flip_case(&host_norm(&s.host), case), 255),
             (10, Some(s)) => (flip_case(&s.fullname(), case), *r.pick(&[1u16, 28, 12, 47])),
             (11, Some(s)) => (flip_case(&host_norm(&s.host), case), *r.pick(&[33u16, 16, 12])),
+            (12, Some(s)) => (flip_case(&renamed(&s.fullname(), " (2)"), case), *r.pick(&[33u16, 16, 255])),
+            (13, Some(s)) => (flip_case(&renamed(&host_norm(&s.host), "-2"), case), *r.pick(&[1u16, 28, 255])),
             _ => (
                 r.pick(&["_nosuch._tcp.local.", "nobody._http._tcp.local.", "nohost.local.", "_services._dns-sd._udp.local."])
                     .to_string(),
